@@ -34,7 +34,11 @@ pub fn analyze_order(egraph: &EGraph, enode: &Expr) -> OrderKey {
         Order([keys, _]) | TopN([_, _, keys, _]) => x(keys).clone(),
         // plans that preserve order
         Proj([_, c]) | Filter([_, c]) | Window([_, c]) | Limit([_, _, c]) => x(c).clone(),
-        MergeJoin([_, _, _, _, _, r]) => x(r).clone(),
+        // an outer join that keeps unmatched left rows pads them with NULLs on the right side, in
+        // between the matched rows: its output is not ordered by the right keys
+        MergeJoin([t, _, _, _, _, r]) if matches!(egraph[*t].nodes[0], Inner | RightOuter) => {
+            x(r).clone()
+        }
         SortAgg([_, _, c]) => x(c).clone(),
         // unordered for other plans
         _ => Box::new([]),
